@@ -133,6 +133,7 @@ type node struct {
 
 	parentDetect      bool
 	parentMultipleKey bool
+	parentKeys        int
 }
 
 func (n *node) String() string {
@@ -257,6 +258,30 @@ func (n *node) ParentMultipleKey() bool {
 
 func (n *node) SetParentMultipleKey(multipleKey bool) {
 	n.parentMultipleKey = multipleKey
+}
+
+func (n *node) ParentKeys() int {
+	return n.parentKeys
+}
+
+func (n *node) SetParentKeys(keys int) {
+	n.parentKeys = keys
+}
+
+// inheritParent hands the switch shortcut of a case arm down to the element that is
+// matched first, unconditionally and at the same position.
+func (n *node) inheritParent(parent *node) {
+	n.parentDetect = parent.parentDetect
+	n.parentMultipleKey = parent.parentMultipleKey
+	n.parentKeys = parent.parentKeys
+}
+
+// clearParent is for elements whose match the dispatch character of a case arm does not
+// decide (the operand of a lookahead, of ? and of *): they must test for themselves.
+func (n *node) clearParent() {
+	n.parentDetect = false
+	n.parentMultipleKey = false
+	n.parentKeys = 0
 }
 
 func (n *node) CheckAlwaysSucceeds(t *Tree) bool {
@@ -1024,8 +1049,7 @@ func (t *Tree) Compile(file string, args []string, out io.Writer) (err error) {
 			rule := t.Rules[name]
 			if t.inline && t.rulesCount[name] == 1 {
 				element := rule.Front()
-				element.SetParentDetect(n.ParentDetect())
-				element.SetParentMultipleKey(n.ParentMultipleKey())
+				element.inheritParent(n)
 				compile(element, ko)
 				return labelLast
 			}
@@ -1038,14 +1062,15 @@ func (t *Tree) Compile(file string, args []string, out io.Writer) (err error) {
 				_print("}")
 			}
 		case TypeRange:
-			if n.ParentDetect() {
-				_print("\nposition++")
-				break
-			}
 			element := n.Front()
 			lower := element
 			element = element.Next()
 			upper := element
+			/* the case labels cover the whole range only if there are as many of them */
+			if size := int([]rune(upper.String())[0]-[]rune(lower.String())[0]) + 1; n.ParentDetect() && n.ParentKeys() == size {
+				_print("\nposition++")
+				break
+			}
 			/*print("\n   if !matchRange('%v', '%v') {", escape(lower.String()), escape(upper.String()))*/
 			_print("\n   if c := buffer[position]; c < '%v' || c > '%v' {", escape(lower.String()), escape(upper.String()))
 			printJump(ko)
@@ -1075,8 +1100,7 @@ func (t *Tree) Compile(file string, args []string, out io.Writer) (err error) {
 			fallthrough
 		case TypeImplicitPush:
 			ok, element := label, n.Front()
-			element.SetParentDetect(n.ParentDetect())
-			element.SetParentMultipleKey(n.ParentMultipleKey())
+			element.inheritParent(n)
 			label++
 			nodeType, rule := element.GetType(), element.Next()
 			printBegin()
@@ -1106,8 +1130,7 @@ func (t *Tree) Compile(file string, args []string, out io.Writer) (err error) {
 			label++
 			printBegin()
 			elements := slices.Collect(n.Iterator())
-			elements[0].SetParentDetect(n.ParentDetect())
-			elements[0].SetParentMultipleKey(n.ParentMultipleKey())
+			elements[0].inheritParent(n)
 			printSave(ok)
 			for _, element := range elements[:len(elements)-1] {
 				next := label
@@ -1147,6 +1170,7 @@ func (t *Tree) Compile(file string, args []string, out io.Writer) (err error) {
 				   marks labels as used that the real pass never jumps to */
 				sequence.SetParentDetect(true)
 				sequence.SetParentMultipleKey(class.Len() > 1)
+				sequence.SetParentKeys(class.Len())
 				if compile(sequence, done) {
 					_print("\nbreak")
 				}
@@ -1160,8 +1184,7 @@ func (t *Tree) Compile(file string, args []string, out io.Writer) (err error) {
 			labelLast = printLabel(ok)
 		case TypeSequence:
 			elements := slices.Collect(n.Iterator())
-			elements[0].SetParentDetect(n.ParentDetect())
-			elements[0].SetParentMultipleKey(n.ParentMultipleKey())
+			elements[0].inheritParent(n)
 			for _, element := range elements {
 				labelLast = compile(element, ko)
 			}
@@ -1171,8 +1194,7 @@ func (t *Tree) Compile(file string, args []string, out io.Writer) (err error) {
 			printBegin()
 			printSave(ok)
 			element := n.Front()
-			element.SetParentDetect(n.ParentDetect())
-			element.SetParentMultipleKey(n.ParentMultipleKey())
+			element.clearParent()
 			compile(element, ko)
 			printRestore(ok)
 			printEnd()
@@ -1182,8 +1204,7 @@ func (t *Tree) Compile(file string, args []string, out io.Writer) (err error) {
 			printBegin()
 			printSave(ok)
 			element := n.Front()
-			element.SetParentDetect(n.ParentDetect())
-			element.SetParentMultipleKey(n.ParentMultipleKey())
+			element.clearParent()
 			compile(element, ok)
 			printJump(ko)
 			printLabel(ok)
@@ -1197,8 +1218,7 @@ func (t *Tree) Compile(file string, args []string, out io.Writer) (err error) {
 			printBegin()
 			printSave(qko)
 			element := n.Front()
-			element.SetParentDetect(n.ParentDetect())
-			element.SetParentMultipleKey(n.ParentMultipleKey())
+			element.clearParent()
 			compile(element, qko)
 			printJump(qok)
 			printLabel(qko)
@@ -1214,8 +1234,7 @@ func (t *Tree) Compile(file string, args []string, out io.Writer) (err error) {
 			printBegin()
 			printSave(out)
 			element := n.Front()
-			element.SetParentDetect(n.ParentDetect())
-			element.SetParentMultipleKey(n.ParentMultipleKey())
+			element.clearParent()
 			compile(element, out)
 			printJump(again)
 			printLabel(out)
